@@ -96,6 +96,23 @@ def direct_target(job):
                 n = int(spec["thrown"])
                 g.throw((np.arange(n) / n)[::-1].copy())
             events += _target_calls(g, cfg, spec, rng, max(2, job["calls"] // 2) if rethrow else job["calls"], rethrow)
+        # coarse sampling: explicit instants of which exactly ONE (then two) is observable - a single surviving trajectory is a valid run
+        try:
+            n = int(spec["thrown"])
+            g.throw(n)
+            h = np.asarray(g.horizon_mask)
+            v = np.zeros_like(h)
+            v[h] = np.asarray(g.volume_mask)
+            good, bad = np.flatnonzero(v), np.flatnonzero(~v)
+            frac = np.arange(n) / n
+            if len(good) >= 2 and len(bad) >= 3:
+                for take in (1, 2):
+                    sel = np.sort(np.concatenate([good[:: max(1, len(good) // take)][:take], bad[:3]]))
+                    g.throw(frac[sel].copy())
+                    if len(g.pathLens()) == take:
+                        events += _target_calls(g, cfg, dict(spec, survivors=take), rng, 4, True)
+        except Exception:
+            pass
     return events
 
 
